@@ -298,7 +298,7 @@ def run(ctx):
     distinct = set()
     per_cfg = {}
     for mix, warm, bound, opcode, window in plan:
-        cfg = (mix, nevals if not (bound >= 2) else 1, warm, opcode)
+        cfg = (mix, nevals if (ctx.thorough and bound < 2) else 1, warm, opcode)
         label = f"{''.join(mix)}/warm={''.join(warm) or '-'}/bound={bound}/window={window}{'/opcode' if opcode else ''}"
         st = explore(ctx, cfg, bound, solos if cfg[1] == nevals else {k: v[:cfg[1]] for k, v in solos.items()}, label, window=window)
         per_cfg[label] = st
